@@ -12,6 +12,9 @@ type Scenario struct {
 	// Warm are run sequentially before the threads start in the warm-cache
 	// configuration.
 	Warm []Query
+	// MaxBound, if not zero, caps the preemption bound for this scenario (wide
+	// scenarios are explored with fewer preemptions).
+	MaxBound int
 }
 
 var c14ListA = ListSpec{ID: 1, Text: "! list A\n" +
@@ -76,6 +79,8 @@ func C14Scenarios() []Scenario {
 		{Name: "S5-engine-cosmetic-dns-3t", Lists: both, Threads: [][]Query{{eng}, {cos}, {d1}}, Warm: []Query{eng}},
 		{Name: "S7-engine-referrer-2t", Lists: both, Threads: [][]Query{{eng}, {eng2}}, Warm: []Query{eng}},
 		{Name: "S7-engine-same-referrer-2t", Lists: both, Threads: [][]Query{{eng}, {eng}}, Warm: []Query{eng}},
+		{Name: "S1-same-rule-twice-in-url-4t", Lists: both, Threads: [][]Query{{twice}, {twice}, {twice}, {twice}}, Warm: []Query{twice}, MaxBound: 1},
+		{Name: "S4-dns-pool-4t", Lists: both, Threads: [][]Query{{d2}, {d3}, {d5}, {d7}}, Warm: []Query{d1}, MaxBound: 1},
 		{Name: "S6-mixed-3t", Lists: both, Threads: [][]Query{{q3, d7}, {d1, twice}, {rx, q1}}, Warm: []Query{q1, d1}},
 	}
 }
